@@ -110,3 +110,17 @@ Print Assumptions C01_lex_show.
 Theorem C01_conv_separates : forall K c un, sep_ok (conv K un c) = true.
 Proof. intros K c un. exact (conv_sep_ok K c un). Qed.
 Print Assumptions C01_conv_separates.
+(* every leaf rendered by the verification backend is one lexical unit ... *)
+From PS Require Import Proofs.LeafLexP.
+Theorem C01_leaf_lexical : forall extra k neg f fo pm v txt,
+  wok extra = true -> k_qpat k = None ->
+  fo_ok (W_of extra) f fo = true -> val_ok (W_of extra) f v = true -> lex_ok f v = true ->
+  render_leaf (vb k) neg f fo pm v = Ok txt -> shapeb txt = true.
+Proof. intros extra k neg f fo pm v txt Hw Hq. exact (leaf_shape (W_of extra) (Wspec_W_of extra Hw) k Hq neg f fo pm v txt). Qed.
+Print Assumptions C01_leaf_lexical.
+(* ... so a query assembled by the conversion from such leaves is split back into exactly its tokens *)
+Theorem C01_query_lexes : forall K tree un atxt ftxt vtxt,
+  (forall t, In t (conv K un tree) -> is_atom t = true -> shapeb (stxt atxt ftxt vtxt t) = true) ->
+  lex (show vb_syntax atxt ftxt vtxt (conv K un tree)) = Some (map (ltok_of atxt ftxt vtxt) (conv K un tree)).
+Proof. intros K tree un atxt ftxt vtxt H. apply lex_show; [exact H|apply conv_sep_ok]. Qed.
+Print Assumptions C01_query_lexes.
